@@ -20,9 +20,11 @@ TDone == Is("done") /\ Done(T.b, T.held)
 TIdle == Is("idle") /\ Idle(T.held)
 TStopped == Is("stopped") /\ Stopped(T.held, T.leaked)
 TStop == Is("stop") /\ Stop
+\* "stalled": the harness gave up waiting for an accepted batch to finish (no clause of C15 speaks about that)
+TNote == l <= Len(Trace) /\ T.op = "stalled" /\ l' = l + 1 /\ UNCHANGED pvars
 \* a "warning" line (the semaphore's over-release callback) matches no action: the held amount went out of balance
 
-TNext == TReset \/ TEnqueue \/ TEnqueued \/ TExists \/ TProcess \/ TReleased \/ TDone \/ TIdle \/ TStop \/ TStopped
+TNext == TReset \/ TEnqueue \/ TEnqueued \/ TExists \/ TProcess \/ TReleased \/ TDone \/ TIdle \/ TStop \/ TStopped \/ TNote
 TSpec == TInit /\ [][TNext]_tvars
 
 Mark == TLCSet(1, IF l > TLCGet(1) THEN l ELSE TLCGet(1))
